@@ -164,6 +164,17 @@ func checkC10(c *core.Ctx) {
 	for _, h := range handSchemas {
 		rq.SDLs = append(rq.SDLs, h)
 	}
+	// type systems that extend or redeclare BUILT-IN definitions: nothing of one load may leak into a later load
+	for _, h := range []string{
+		"directive @tag on SCALAR extend scalar String @tag type Query { a: String }",
+		"directive @deprecated(why: Int) on FIELD_DEFINITION type Query { a: Int @deprecated(why: 1) }",
+		"extend enum __TypeKind { EXTRA } type Query { a: Int }",
+		"extend type __Type { mine: Int } type Query { a: Int }",
+		"directive @include(if: Boolean!, also: Int) on FIELD type Query { a: Int }",
+	} {
+		rq.SDLs = append(rq.SDLs, h)
+		rq.Pairs = append(rq.Pairs, []string{h, "{ a }"})
+	}
 	type obs struct {
 		Run  string `json:"run"`
 		Errs []EErr `json:"errs"`
@@ -200,9 +211,14 @@ func checkC10(c *core.Ctx) {
 			loadObs[i] = append(loadObs[i], obs{"load 1", loadErrs(s)}, obs{"load 2", loadErrs(s)})
 		}()
 	}
-	// fresh processes
-	in, _ := json.Marshal(rq)
+	// fresh processes; every second one works through the lists in reverse, so that each case is also
+	// observed after a different history of earlier loads and validations
 	for k := 0; k < nproc; k++ {
+		rk := rq
+		if k%2 == 1 {
+			rk = detReq{SDLs: reversed(rq.SDLs), Pairs: reversedPairs(rq.Pairs)}
+		}
+		in, _ := json.Marshal(rk)
 		wr := RunWorker(5*time.Minute, in, "det")
 		if wr.Crashed || wr.TimedOut {
 			c.Internal("determinism worker %d failed: %s", k, firstLine(wr.Stderr))
@@ -214,10 +230,18 @@ func checkC10(c *core.Ctx) {
 			return
 		}
 		for i := range rs.Pairs {
-			pairObs[i] = append(pairObs[i], obs{fmt.Sprintf("fresh process %d", k+1), rs.Pairs[i]})
+			j := i
+			if k%2 == 1 {
+				j = len(rs.Pairs) - 1 - i
+			}
+			pairObs[j] = append(pairObs[j], obs{fmt.Sprintf("fresh process %d", k+1), rs.Pairs[i]})
 		}
 		for i := range rs.Load {
-			loadObs[i] = append(loadObs[i], obs{fmt.Sprintf("fresh process %d", k+1), rs.Load[i]})
+			j := i
+			if k%2 == 1 {
+				j = len(rs.Load) - 1 - i
+			}
+			loadObs[j] = append(loadObs[j], obs{fmt.Sprintf("fresh process %d", k+1), rs.Load[i]})
 		}
 	}
 	var lines [][]byte
@@ -272,6 +296,22 @@ func checkC10(c *core.Ctx) {
 		c.Violation(fmt.Sprintf("%s: run %q reports %v, first run reported %v; %s", b.Class, b.Run, b.Other, b.First, descs[b.ID]),
 			map[string]any{"case": descs[b.ID], "run": b.Run, "first": b.First, "other": b.Other})
 	}
+}
+
+func reversed(a []string) []string {
+	out := make([]string, len(a))
+	for i := range a {
+		out[len(a)-1-i] = a[i]
+	}
+	return out
+}
+
+func reversedPairs(a [][]string) [][]string {
+	out := make([][]string, len(a))
+	for i := range a {
+		out[len(a)-1-i] = a[i]
+	}
+	return out
 }
 
 // misspell changes one character in a few field / type-condition / argument / enum names
